@@ -640,6 +640,7 @@ class StmtMixin:
         return v
 
     def check_loop_frame(self, st, fr, ls, tag, body_heap, body_loc, c, n, entry_loc, entry_heap, snap, mark):
+        ls = _with_ghost_fields(ls)
         """the loop body writes only what the loop specification declares as modified (everything else was NOT havocked
         before the arbitrary iteration, so a write outside the declaration would go unnoticed after the loop)"""
         run = self.run
@@ -705,7 +706,16 @@ class StmtMixin:
             res = ls.inv(c_now(), L)
             if not isinstance(res, (list, tuple)):
                 res = [('inv', res)]
-            return L, [(nm, g) for nm, g in res]
+            out = []
+            for item in res:
+                if len(item) == 3 and (item[2] or {}).get('builtin_axiom'):
+                    # a fact about built-in objects that holds in every state (e.g. a dict object is a well-formed ordered map):
+                    # part of the trusted model of the built-ins, assumed wherever the invariant is assumed, never an obligation
+                    if when == 'assume':
+                        out.append((item[0], item[1]))
+                    continue
+                out.append((item[0], item[1]))
+            return L, out
 
         def c_now():
             cc = self.spec_ctx()
@@ -716,7 +726,8 @@ class StmtMixin:
         for nm, g in invs:
             run.oblige(f'{tag}.{nm}.entry', g, kind='inv_entry', lineno=st.lineno)
         which = run.choose(2, tag)
-        # 2. havoc
+        # 2. havoc (ghost bookkeeping of a list - the positions of appended values - goes with the list's items)
+        ls = _with_ghost_fields(ls)
         for name in ls.mod_locals:
             if name in fr.loc:
                 fr.loc[name] = self.havoc_value(fr.loc[name], name)
@@ -790,3 +801,34 @@ class StmtMixin:
                 cnd = self.truth(self.ev(st.test, fr), fr, st)
                 run.assume(z3.Not(cnd))
             self.exec_block(st.orelse, fr)
+
+
+GHOST_WITH = {'$litem': ('$lpos',)}
+
+
+def _with_ghost_fields(ls):
+    """loop specification in which every declared modification of a list's items also covers the list's ghost bookkeeping"""
+    if getattr(ls, '_ghosted', False):
+        return ls
+    from .contract import Loop
+
+    def ext(fn):
+        if fn is None:
+            return None
+
+        def wrapped(c, L, fn=fn):
+            out = list(fn(c, L))
+            for f, x in list(out):
+                for g in GHOST_WITH.get(f, ()):
+                    out.append((g, x))
+            return out
+        return wrapped
+    mf = list(ls.mod_fields)
+    for f in list(mf):
+        for g in GHOST_WITH.get(f, ()):
+            if g not in mf:
+                mf.append(g)
+    new = Loop(ls.inv, mod_locals=ls.mod_locals, mod_fields=mf, decreases=ls.decreases, mod_objs=ls.mod_objs, note=ls.note,
+               mod_at=ext(ls.mod_at), mod_where=ext(ls.mod_where))
+    new._ghosted = True
+    return new
